@@ -18,6 +18,7 @@ var (
 	letterRunes    = []rune("1234567890abcdefghijklmnopqrstuvwxyzABCDEFGHIJKLMNOPQRSTUVWXYZ")
 	randForLock    *rand.Rand
 	getRandForLock sync.Once
+	randForLockMtx sync.Mutex
 )
 
 func randStrForLock() *rand.Rand {
@@ -28,6 +29,10 @@ func randStrForLock() *rand.Rand {
 }
 
 func RandomString(length int) string {
+	// The generator is shared by all goroutines.
+	randForLockMtx.Lock()
+	defer randForLockMtx.Unlock()
+
 	r := make([]rune, length)
 	for i := 0; i < length; i++ {
 		r[i] = letterRunes[randStrForLock().Intn(len(letterRunes))]
